@@ -167,18 +167,28 @@ def check(model, rep):
     sib = [F(PORT, 'AngleMod'), F(HELP, 'angleMod'), model.func(TMM, 'tm.angleMod')]
     n_sites = 0
     for fi in sib:
-        for n in walk_own(fi.node):
-            if isinstance(n, ast.If) and isinstance(n.test, ast.Compare) and len(n.test.ops) == 1 and isinstance(n.test.ops[0], ast.Gt) \
-                    and src(n.test.left).startswith('abs('):
-                g = fold_const(n.test.comparators[0])
-                mods = [s.value for s in n.body if isinstance(s, ast.Assign) and isinstance(s.value, ast.BinOp) and isinstance(s.value.op, ast.Mod)]
-                for mexpr in mods:
-                    n_sites += 1
-                    mval = fold_const(mexpr.right)
-                    ok = g is not None and mval is not None and abs(g - 2 * math.pi) < 1e-12 and abs(mval - 2 * math.pi) < 1e-12
-                    rep.ob('R18.2', fi, src(mexpr), ok,
-                           'angles beyond %s are reduced modulo %s: the result differs from the input by a non-multiple of 2*pi '
-                           '(the rotation changes)' % (src(n.test.comparators[0]), src(mexpr.right)), line=n.lineno)
+        il = Inliner(fi)
+        nodes = list(walk_own(fi.node))
+        # every threshold an |angle| is compared with, and every modulus an angle is reduced by, folds to 2*pi
+        thresholds = []
+        for n in nodes:
+            if isinstance(n, ast.Compare) and len(n.ops) == 1 and isinstance(n.ops[0], (ast.Gt, ast.GtE, ast.Lt, ast.LtE)):
+                l, r = n.left, n.comparators[0]
+                if isinstance(l, ast.Call) and norm_text(l.func) in ('abs', 'np.abs') and not (isinstance(r, ast.Call) and norm_text(r.func) in ('abs', 'np.abs')):
+                    thresholds.append((n, r))
+                elif isinstance(r, ast.Call) and norm_text(r.func) in ('abs', 'np.abs'):
+                    thresholds.append((n, l))
+        mods = [n for n in nodes if isinstance(n, ast.BinOp) and isinstance(n.op, ast.Mod) and not isinstance(n.left, ast.Constant)]
+        mods += [n for n in nodes if isinstance(n, ast.AugAssign) and isinstance(n.op, ast.Mod)]
+        for mexpr in mods:
+            n_sites += 1
+            rhs = mexpr.right if isinstance(mexpr, ast.BinOp) else mexpr.value
+            mval = fold_const(il.expand(rhs))
+            gs = [fold_const(il.expand(t_)) for (_c, t_) in thresholds]
+            ok = mval is not None and abs(mval - 2 * math.pi) < 1e-12 and bool(gs) and all(g is not None and abs(g - 2 * math.pi) < 1e-12 for g in gs)
+            rep.ob('R18.2', fi, src(mexpr)[:70], ok,
+                   'angles beyond %s are reduced modulo %s: the result differs from the input by a non-multiple of 2*pi '
+                   '(the rotation changes)' % ([norm_text(il.expand(t_)) for (_c, t_) in thresholds], norm_text(il.expand(rhs))), line=mexpr.lineno)
     rep.floor('R18.2', 'wrap sites', n_sites, 5)
 
     # ---------------------------------------------------------------- R18.3
